@@ -2919,35 +2919,34 @@ theorem fromBinary10_spec (N : Nat) : 2 ^ N < 10 ^ ((N * 1000 + 3322) / 3321) :=
   have h := pow_two_lt_pow_ten 1000 3321 (by omega) two_pow_3321 N
   exact Nat.lt_of_lt_of_le h (Nat.pow_le_pow_right (by omega) (by omega))
 
-/-- `num_digits_to_binary(E, R)` for the radixes 2…10: a natural number; for `R ≠ 10` enough bits for `R^E`;
+/-- `R ≤ 2^used_digits(R−1)` -/
+theorem le_two_pow_usedDigits (R : Nat) (hR : 1 ≤ R) : R ≤ 2 ^ usedDigits (R - 1) := by
+  unfold usedDigits
+  split
+  · omega
+  · have := @Nat.lt_log2_self (R - 1)
+    omega
+
+/-- `num_digits_to_binary(E, R)` for EVERY radix `≥ 2`: a natural number; for `R ≠ 10` enough bits for `R^E`
+(`E·used_digits(R−1)` in general, `E`, `3E`, `4E` for 2, 8, 16);
 for `R = 10` the estimate `(3322·E + 678)/1000` can be ONE BIT SHORT (e.g. `E = 60`: 199 bits, `10^60 > 2^199`) -/
-theorem toBinary_spec (E R : Nat) (hR2 : 2 ≤ R) (hR : R ≤ 10) :
+theorem toBinary_spec (E R : Nat) (hR2 : 2 ≤ R) :
     ∃ tb : Nat, numDigitsToBinary (E : Int) R = tb ∧ (R ≠ 10 → R ^ E ≤ 2 ^ tb) ∧
       (R = 10 → 3322 * E ≤ tb * 1000 + 321) := by
-  have u2 : usedDigits (3 - 1) = 2 := by decide
-  have u3 : usedDigits (4 - 1) = 2 := by decide
-  have u4 : usedDigits (5 - 1) = 3 := by decide
-  have u5 : usedDigits (6 - 1) = 3 := by decide
-  have u6 : usedDigits (7 - 1) = 3 := by decide
-  have u8 : usedDigits (9 - 1) = 4 := by decide
   have pw : ∀ (r k : Nat), r ≤ 2 ^ k → r ^ E ≤ 2 ^ (E * k) := by
     intro r k h
     calc r ^ E ≤ (2 ^ k) ^ E := Nat.pow_le_pow_left h E
       _ = 2 ^ (E * k) := by rw [← Nat.pow_mul, Nat.mul_comm]
-  have hc : R = 2 ∨ R = 3 ∨ R = 4 ∨ R = 5 ∨ R = 6 ∨ R = 7 ∨ R = 8 ∨ R = 9 ∨ R = 10 := by omega
-  rcases hc with h | h | h | h | h | h | h | h | h <;> subst h
+  unfold numDigitsToBinary
+  split
   · exact ⟨E, rfl, fun _ => Nat.le_refl _, fun h => absurd h (by decide)⟩
-  · exact ⟨E * 2, by simp only [numDigitsToBinary, u2]; rfl, fun _ => pw 3 2 (by decide), fun h => absurd h (by decide)⟩
-  · exact ⟨E * 2, by simp only [numDigitsToBinary, u3]; rfl, fun _ => pw 4 2 (by decide), fun h => absurd h (by decide)⟩
-  · exact ⟨E * 3, by simp only [numDigitsToBinary, u4]; rfl, fun _ => pw 5 3 (by decide), fun h => absurd h (by decide)⟩
-  · exact ⟨E * 3, by simp only [numDigitsToBinary, u5]; rfl, fun _ => pw 6 3 (by decide), fun h => absurd h (by decide)⟩
-  · exact ⟨E * 3, by simp only [numDigitsToBinary, u6]; rfl, fun _ => pw 7 3 (by decide), fun h => absurd h (by decide)⟩
-  · exact ⟨E * 3, by simp only [numDigitsToBinary]; rfl, fun _ => pw 8 3 (by decide), fun h => absurd h (by decide)⟩
-  · exact ⟨E * 4, by simp only [numDigitsToBinary, u8]; rfl, fun _ => pw 9 4 (by decide), fun h => absurd h (by decide)⟩
+  · exact ⟨E * 3, rfl, fun _ => pw 8 3 (by decide), fun h => absurd h (by decide)⟩
   · refine ⟨(E * 3322 + 678) / 1000, ?_, fun h => absurd rfl h, fun _ => by omega⟩
-    simp only [numDigitsToBinary]
     rw [Int.tdiv_eq_ediv_of_nonneg (by omega)]
     omega
+  · exact ⟨E * 4, rfl, fun _ => pw 16 4 (by decide), fun h => absurd h (by decide)⟩
+  · rename_i _ _ h10 _
+    exact ⟨E * usedDigits (R - 1), by simp, fun _ => pw R _ (le_two_pow_usedDigits R (by omega)), fun h => absurd h h10⟩
 
 /-- the capacity for a non-negative exponent: sign + `num_digits_from_binary(digits + tb, 10)` -/
 theorem scaledCapacity_nonneg_exp (T : IntTy) (e : Int) (R : Nat) (he : 0 ≤ e) (tb : Nat)
@@ -3045,15 +3044,13 @@ theorem staticText_ok (cap : Nat) (run : Nat → Res TCR) (r : TCR) (hrun : run 
   simp [this]
 
 /-- **the capacity of `scaled_integer` suffices — non-negative exponents.**  For every rep type, every value,
-every exponent `e ≥ 0` and every radix 2…10 (for radix ten: digit counts with `1000·digits mod 3321 ≥ 320`, which
+every exponent `e ≥ 0` and EVERY radix `≥ 2` (for radix ten: digit counts with `1000·digits mod 3321 ≥ 320`, which
 holds for 7, 8, 15, 16, 31, 32, 63, 64, 127, 128), `to_chars_static` succeeds — for every value, the most negative one included -/
 theorem scaledStaticText_nonneg_exp (T : IntTy) (e : Int) (R : Nat) (rep : Int)
-    (he : 0 ≤ e) (hR2 : 2 ≤ R) (hR : R ≤ 10)
+    (he : 0 ≤ e) (hR2 : 2 ≤ R) (hRS : 10 * (R : Int) ≤ (sigTy T).max)
     (hside : R = 10 → 320 ≤ T.digits * 1000 % 3321) (hbits : 1 ≤ T.bits) (hr : T.InRange rep) :
     ∃ t, scaledStaticText T e R rep = .ok t := by
-  have hRS : 10 * (R : Int) ≤ (sigTy T).max := by
-    have := max_ge_127_any (sigTy T) (sigTy_bits T); omega
-  obtain ⟨tb, htb, hp1, hp2⟩ := toBinary_spec e.natAbs R hR2 hR
+  obtain ⟨tb, htb, hp1, hp2⟩ := toBinary_spec e.natAbs R hR2
   have hee : ((e.natAbs : Nat) : Int) = e := by omega
   rw [hee] at htb
   have hcap := scaledCapacity_nonneg_exp T e R he tb htb
